@@ -6,10 +6,8 @@ def Late (s : SP) : Prop := s = .locked ∨ s = .stopping ∨ s = .returned
 
 structure Inv (u : U) : Prop where
   fx : u.fixed = true
-  dial : u.rl = .dialing ↔ u.mu = .creator
   stopper : u.mu = .stopper ↔ u.sp = .locked
   quitSet : u.sp ≠ .idle → u.quit = true
-  noDial : Late u.sp → u.rl ≠ .dialing
   bSnap : Late u.sp → u.bRunning = true → u.snapB = true
   aSnap : Late u.sp → u.aRunning = true → u.snapA = true
   ret : u.sp = .returned → u.aRunning = false ∧ u.bRunning = false
@@ -17,7 +15,7 @@ structure Inv (u : U) : Prop where
 theorem inv_init : Inv { fixed := true } := by constructor <;> simp [Late]
 
 theorem inv_step (u u' : U) (l : Label) (hi : Inv u) (hs : step u l = some u') : Inv u' := by
-  obtain ⟨h0, h1, h2, h3, h4, h5, h6, h7⟩ := hi
+  obtain ⟨h0, h2, h3, h5, h6, h7⟩ := hi
   unfold Late at *
   cases l <;> simp only [step] at hs <;> (repeat' split at hs) <;> (try cases hs) <;>
     (constructor <;> simp_all [Late]) <;>
@@ -60,32 +58,26 @@ theorem stopCalled_stays (u u' : U) (l : Label) (h : stopCalled u.sp) (hs : step
 /-- after Stop has been called, the repaired upstream always has a step of its own until Stop has returned -/
 theorem progress (u : U) (hi : Inv u) (hc : stopCalled u.sp) (hn : u.sp ≠ .returned) :
     ∃ l, internal l = true ∧ (step u l).isSome = true := by
-  obtain ⟨h0, h1, h2, h3, h4, h5, h6, h7⟩ := hi
+  obtain ⟨h0, h2, h3, h5, h6, h7⟩ := hi
+  have hfree : u.sp ≠ .locked → u.mu = .free := by
+    intro hne
+    cases hmu : u.mu with
+    | free => rfl
+    | stopper => exact absurd (h2.mp hmu) hne
   cases hsp : u.sp with
   | idle => exact absurd hsp hc
   | returned => exact absurd hsp hn
-  | quitClosed =>
-    cases hmu : u.mu with
-    | free => exact ⟨.stopLock, rfl, by simp [step, hsp, hmu]⟩
-    | creator => exact ⟨.dialDone, rfl, by simp [step, h1.mpr hmu]⟩
-    | stopper => have := h2.mp hmu; rw [hsp] at this; cases this
+  | quitClosed => exact ⟨.stopLock, rfl, by simp [step, hsp, hfree (by rw [hsp]; intro h; cases h)]⟩
   | locked => exact ⟨.stopUnlock, rfl, by simp [step, h0, hsp]⟩
   | stopping =>
-    have hnd : u.rl ≠ .dialing := h4 (by simp [Late, hsp])
-    have hfree : u.mu = .free := by
-      cases hmu : u.mu with
-      | free => rfl
-      | creator => exact absurd (h1.mpr hmu) hnd
-      | stopper => have := h2.mp hmu; rw [hsp] at this; cases this
+    have hmu := hfree (by rw [hsp]; intro h; cases h)
+    have hq : u.quit = true := h3 (by rw [hsp]; intro h; cases h)
     by_cases ha : u.snapA = true ∧ u.aRunning = true
     · cases hrl : u.rl with
       | idle => exact ⟨.stopA, rfl, by simp [step, hsp, ha.1, ha.2, hrl]⟩
       | done => exact ⟨.stopA, rfl, by simp [step, hsp, ha.1, ha.2, hrl]⟩
-      | dialing => exact absurd hrl hnd
-      | checked =>
-        refine ⟨.rlLock, rfl, ?_⟩
-        simp only [step, hrl, hfree, and_self, if_true]
-        split <;> rfl
+      | dialing => exact ⟨.dialDone, rfl, by simp [step, hrl, hmu, hq]⟩
+      | checked => exact ⟨.rlLock, rfl, by simp [step, hrl, hmu, hq]⟩
     · by_cases hb : u.snapB = true ∧ u.bRunning = true
       · exact ⟨.stopB, rfl, by simp [step, hsp, hb.1, hb.2]⟩
       · refine ⟨.stopReturn, rfl, ?_⟩
